@@ -46,7 +46,8 @@ theorem place_generic (basis : Array W) (p : Pos) (wf : WFBoard p) (hply : 2 ≤
     (hcol : p.toMove = col) (s : Nat) (hs : s < p.cfg.size * p.cfg.size)
     (hemp : (p.white ||| p.black).getLsbD s = false)
     (hres : stonesOf p col ≠ 0#8 ∨ capsOf p col ≠ 0#8) :
-    ∃ m q, p.apply basis m = .ok q ∧ After p q 64 s (own p col) (own q col) (own p col.flip) (own q col.flip) := by
+    ∃ m q, m.type ≠ Facts.mtPass ∧ p.apply basis m = .ok q ∧
+      After p q 64 s (own p col) (own q col) (own p col.flip) (own q col.flip) := by
   have hn : 0 < p.cfg.size := by have := wf.size_ok.1; omega
   have h64 := sq_le _ wf.size_ok
   have hdis := disjoint_bits p wf
@@ -56,15 +57,15 @@ theorem place_generic (basis : Array W) (p : Pos) (wf : WFBoard p) (hply : 2 ≤
   · rw [hw] at hcol; subst hcol
     rcases hres with h | h
     · obtain ⟨q, h1, h2⟩ := apply_place_flat_w basis p _ _ hx hy h64 hply hw hdis hemp h
-      rw [e] at h2; exact ⟨_, q, h1, h2⟩
+      rw [e] at h2; exact ⟨_, q, by simp only []; decide, h1, h2⟩
     · obtain ⟨q, h1, h2⟩ := apply_place_cap_w basis p _ _ hx hy h64 hply hw hdis hemp h
-      rw [e] at h2; exact ⟨_, q, h1, h2⟩
+      rw [e] at h2; exact ⟨_, q, by simp only []; decide, h1, h2⟩
   · rw [hb] at hcol; subst hcol
     rcases hres with h | h
     · obtain ⟨q, h1, h2⟩ := apply_place_flat_b basis p _ _ hx hy h64 hply hb hdis hemp h
-      rw [e] at h2; exact ⟨_, q, h1, h2⟩
+      rw [e] at h2; exact ⟨_, q, by simp only []; decide, h1, h2⟩
     · obtain ⟨q, h1, h2⟩ := apply_place_cap_b basis p _ _ hx hy h64 hply hb hdis hemp h
-      rw [e] at h2; exact ⟨_, q, h1, h2⟩
+      rw [e] at h2; exact ⟨_, q, by simp only []; decide, h1, h2⟩
 
 /-- the top flat of square `j` can be slid one step onto a neighbouring square `s` without wall or capstone -/
 theorem slide_generic (basis : Array W) (p : Pos) (wf : WFBoard p) (hh : HeightsOK p) (hply : 2 ≤ p.move)
@@ -73,7 +74,8 @@ theorem slide_generic (basis : Array W) (p : Pos) (wf : WFBoard p) (hh : Heights
     (hown : (own p col).getLsbD j = true)
     (hjs : p.standing.getLsbD j = false) (hjc : p.caps.getLsbD j = false)
     (hss : p.standing.getLsbD s = false) (hsc : p.caps.getLsbD s = false) :
-    ∃ m q, p.apply basis m = .ok q ∧ After p q j s (own p col) (own q col) (own p col.flip) (own q col.flip) := by
+    ∃ m q, m.type ≠ Facts.mtPass ∧ p.apply basis m = .ok q ∧
+      After p q j s (own p col) (own q col) (own p col.flip) (own q col.flip) := by
   have hn3 := wf.size_ok.1
   have hn : 0 < p.cfg.size := by omega
   have h64 := sq_le _ wf.size_ok
@@ -110,21 +112,21 @@ theorem slide_generic (basis : Array W) (p : Pos) (wf : WFBoard p) (hh : Heights
     · have t := tR a b
       rw [← t] at hss hsc
       obtain ⟨q, h1, h2⟩ := apply_slide_right_w basis p _ _ (by omega) hy h64 hply hw hdis hown hjs hjc hht hss hsc
-      rw [t, e] at h2; exact ⟨_, q, h1, h2⟩
+      rw [t, e] at h2; exact ⟨_, q, by simp only []; decide, h1, h2⟩
     · have t := tL a b
       rw [← t] at hss hsc
       have hx1 : 1 ≤ j % p.cfg.size := by rw [b]; exact Nat.succ_le_succ (Nat.zero_le _)
       obtain ⟨q, h1, h2⟩ := apply_slide_left_w basis p _ _ hx1 hx hy h64 hply hw hdis hown hjs hjc hht hss hsc
-      rw [t, e] at h2; exact ⟨_, q, h1, h2⟩
+      rw [t, e] at h2; exact ⟨_, q, by simp only []; decide, h1, h2⟩
     · have t := tU a b
       rw [← t] at hss hsc
       obtain ⟨q, h1, h2⟩ := apply_slide_up_w basis p _ _ hx (by omega) h64 hply hw hdis hown hjs hjc hht hss hsc
-      rw [t, e] at h2; exact ⟨_, q, h1, h2⟩
+      rw [t, e] at h2; exact ⟨_, q, by simp only []; decide, h1, h2⟩
     · have t := tD a b
       rw [← t] at hss hsc
       have hy1 : 1 ≤ j / p.cfg.size := by rw [b]; exact Nat.succ_le_succ (Nat.zero_le _)
       obtain ⟨q, h1, h2⟩ := apply_slide_down_w basis p _ _ hx hy1 hy h64 hply hw hdis hown hjs hjc hht hss hsc
-      rw [t, e] at h2; exact ⟨_, q, h1, h2⟩
+      rw [t, e] at h2; exact ⟨_, q, by simp only []; decide, h1, h2⟩
   · rw [hb] at hcol; subst hcol
     simp only [own] at hown ⊢
     have hnw : p.white.getLsbD j = false := by
@@ -138,20 +140,20 @@ theorem slide_generic (basis : Array W) (p : Pos) (wf : WFBoard p) (hh : Heights
     · have t := tR a b
       rw [← t] at hss hsc
       obtain ⟨q, h1, h2⟩ := apply_slide_right_b basis p _ _ (by omega) hy h64 hply hb hdis hown hnw hjs hjc hht hss hsc
-      rw [t, e] at h2; exact ⟨_, q, h1, h2⟩
+      rw [t, e] at h2; exact ⟨_, q, by simp only []; decide, h1, h2⟩
     · have t := tL a b
       rw [← t] at hss hsc
       have hx1 : 1 ≤ j % p.cfg.size := by rw [b]; exact Nat.succ_le_succ (Nat.zero_le _)
       obtain ⟨q, h1, h2⟩ := apply_slide_left_b basis p _ _ hx1 hx hy h64 hply hb hdis hown hnw hjs hjc hht hss hsc
-      rw [t, e] at h2; exact ⟨_, q, h1, h2⟩
+      rw [t, e] at h2; exact ⟨_, q, by simp only []; decide, h1, h2⟩
     · have t := tU a b
       rw [← t] at hss hsc
       obtain ⟨q, h1, h2⟩ := apply_slide_up_b basis p _ _ hx (by omega) h64 hply hb hdis hown hnw hjs hjc hht hss hsc
-      rw [t, e] at h2; exact ⟨_, q, h1, h2⟩
+      rw [t, e] at h2; exact ⟨_, q, by simp only []; decide, h1, h2⟩
     · have t := tD a b
       rw [← t] at hss hsc
       have hy1 : 1 ≤ j / p.cfg.size := by rw [b]; exact Nat.succ_le_succ (Nat.zero_le _)
       obtain ⟨q, h1, h2⟩ := apply_slide_down_b basis p _ _ hx hy1 hy h64 hply hb hdis hown hnw hjs hjc hht hss hsc
-      rw [t, e] at h2; exact ⟨_, q, h1, h2⟩
+      rw [t, e] at h2; exact ⟨_, q, by simp only []; decide, h1, h2⟩
 
 end C19
